@@ -29,6 +29,33 @@ CLAIMED = {
    design="DESIGN.md §3 C15",
    note=BASE_NOTE + "f32 arithmetic of rustc is not modelled in Flocq; it is compared exhaustively instead. Scaling belongs to the bit-depth class: with bit-depth changes disabled (C08) nothing is scaled. Image-level lift as in C01 (partial).",
    technique="Coq proof (lia over all 16-bit values) + exhaustive correspondence + spec oracle"),
+ "C04": dict(
+   text="Machine-checked on the whole pipeline model, for every oracle environment (any compressor behaviour, any deadline pattern): without force the result of the in-memory call is the input bytes or strictly shorter; "
+        "chains with varying options never grow a file; repeated runs reach a byte-level fixed point within length(input) steps. Tied to the code by replaying optimize_from_memory on the model (byte-identical), "
+        "with already-optimal, tiny, multi-IDAT and APNG inputs and repeated runs to the fixed point.",
+   design="DESIGN.md §3 C04",
+   note=BASE_NOTE + "the file-routing half (in place: no write; other destination: copy of the input) is part of the I/O model of C12.",
+   technique="Coq proof (case analysis on the final decision; strong induction on length for the fixed point) + model replay"),
+ "C06": dict(
+   text="Machine-checked (Properties/C06.v): the concurrent trials are a labelled transition system with an arbitrary schedule; every complete schedule, and the synchronous fold of the non-parallel build, "
+        "return best_of = the key-minimal eligible trial; the pipeline model only consults best_of and has no schedule parameter. Tied to the code by forcing schedules in the real rayon pool "
+        "(all 90 interleavings of 3 trials, random ones of up to 8) and replaying the OBSERVED event order on the LTS (trace validation); outputs compared across pool sizes 1..16, nested pools and the non-parallel build.",
+   design="DESIGN.md §3 C06",
+   note=BASE_NOTE + "PARTIAL for the runtime half: interleavings inside libdeflate/zopfli/rayon finer than the two shared-state accesses per trial are exercised, not modelled; compressors are assumed deterministic functions of (deflater, input).",
+   technique="Coq proof (invariant over LTS runs by induction on the schedule) + forced-schedule trace validation"),
+ "C13": dict(
+   text="Machine-checked (Properties/C13.v): the clock is an oracle of the model, so the pipeline theorems hold for every pattern of answers; never-larger under any landing point; the evaluator returns the minimal completed trial "
+        "whichever trials were skipped. Tied to the code through the deadline hook: for EVERY k in 0..K (K = consultations of the untimed run) the run with expiry at the k-th check is replayed on the model under the recorded clock, "
+        "decoded by the extracted specification and compared in size.",
+   design="DESIGN.md §3 C13",
+   note=BASE_NOTE + "fidelity / well-formedness under deadlines inherit the partial status of C01/C02 (decided per run by the oracle at every landing point). The wall clock itself is replaced by the hook.",
+   technique="Coq proof (universally quantified clock oracle) + exhaustive landing-point enumeration with model replay"),
+ "C17": dict(
+   text="Machine-checked (Properties/C17.v): for every completion order the returned candidate is a completed trial, minimal under the fixed key (size, raw bytes, filter, later submission) among all completed trials, "
+        "and the minimum of all trials that fit the initial bound; the key is a strict total order. Tied to the code with the trial tap: every completed final-round trial of optimize_raw vs the emitted IDAT, and the Evaluator alone under random schedules.",
+   design="DESIGN.md §3 C17",
+   note=BASE_NOTE + "two genuine defects were repaired (fix commits 9e5a3fe, c40427e): results of the earlier evaluation round were replaced by / discarded for larger ones.",
+   technique="Coq proof (LTS invariant) + tapped trial sizes compared with the emitted result"),
  "C18": dict(
    text="Machine-checked theorems (Properties/C18.v), for every width and height >= 1 and every pixel size >= 1 bit, no bound: the scan-line iterator emits exactly the "
         "specification's Adam7 pass rows and byte lengths (empty passes omitted); raw_data_size equals the specification's total; the routing table of interlace_image is the "
